@@ -670,6 +670,10 @@ pub fn run(a: &Args) {
     let mut since_open = 0;
     let mut i = 0u64;
     while i < a.n {
+        if crate::l2::timeouts() >= crate::l2::ENOUGH_TIMEOUTS {
+            sink.count("stopped-early-after-timeouts");
+            break;
+        }
         // a queue-with-empty-name nowait declare panics by design (documented): skipped
         let mut op = random_op(&mut rng, i);
         if let Op::QueueDeclare { mode: 1, name, .. } = &mut op {
